@@ -58,6 +58,29 @@ fn analyse(label: &str, kind: &str, vals: &[String], ordered: bool, failures: &m
             break;
         }
     }
+    // every byte VALUE must occur about n*len/256 times over all positions (a generator that never yields 0xFF, or only
+    // printable bytes, passes every per-bit and distinctness test)
+    {
+        let mut hist = [0u64; 256];
+        for b in &decoded {
+            for x in b {
+                hist[*x as usize] += 1;
+            }
+        }
+        let total = (decoded.len() * nbytes) as f64;
+        let mean = total / 256.0;
+        let sd = (total * (1.0 / 256.0) * (255.0 / 256.0)).sqrt();
+        for (v, c) in hist.iter().enumerate() {
+            *tests += 1;
+            let z = (*c as f64 - mean) / sd;
+            // 8 sigma here: 256 tests per sample set, and the binomial tail is slightly heavier than the normal one
+            if z.abs() > 8.0 && mean >= 1000.0 {
+                failures.push(json!({"signature": "C12:byte-value-frequency", "mode": label, "kind": kind,
+                    "detail": format!("byte value {v:#04x} occurs {c} times among {total} random bytes (expected about {mean:.0}; {z:.1} sigma)")}));
+                break;
+            }
+        }
+    }
     // byte positions inside one value must not be tied to each other
     'outer: for i in 0..nbytes {
         for j in i + 1..nbytes {
